@@ -2518,6 +2518,91 @@ impl StorageEngine {
         }
     }
 
+    /// Remove `key` from a locked shard if the deadline stored with its value has passed
+    fn remove_if_expired(&self, shard_guard: &mut DatabaseShard, key: &[u8]) -> bool {
+        match shard_guard.data.get(key) {
+            Some(v) if v.is_expired() => {}
+            _ => return false,
+        }
+        if let Some(stored_value) = shard_guard.data.remove(key) {
+            shard_guard.expiring_keys.remove(key);
+            shard_guard.mark_modified(key);
+            let memory_size = self.calculate_value_size(key, &stored_value.value);
+            self.memory_manager.remove_memory(memory_size);
+        }
+        true
+    }
+
+    /// Lazy expiry of one key: a key whose deadline has passed is removed before a command can
+    /// see it, whether or not the background sweeper has come by yet
+    pub fn expire_if_due(&self, db: DatabaseIndex, key: &[u8]) -> bool {
+        let shard = match self.get_shard(db, key) {
+            Ok(shard) => shard,
+            Err(_) => return false,
+        };
+        {
+            let shard_guard = shard.read().unwrap();
+            match shard_guard.data.get(key) {
+                Some(v) if v.is_expired() => {}
+                _ => return false,
+            }
+        }
+        let mut shard_guard = shard.write().unwrap();
+        self.remove_if_expired(&mut shard_guard, key)
+    }
+
+    /// Lazy expiry of a whole database, through the deadline index
+    pub fn expire_due_keys(&self, db: DatabaseIndex) -> usize {
+        let database = match self.databases.get(db) {
+            Some(database) => database,
+            None => return 0,
+        };
+        let now = Instant::now();
+        let mut removed = 0;
+        for shard in &database.shards {
+            let due: Vec<Key> = {
+                let shard_guard = shard.read().unwrap();
+                shard_guard.expiring_keys.iter()
+                    .filter(|(_, expires_at)| **expires_at <= now)
+                    .map(|(key, _)| key.clone())
+                    .collect()
+            };
+            if !due.is_empty() {
+                let mut shard_guard = shard.write().unwrap();
+                for key in due {
+                    if self.remove_if_expired(&mut shard_guard, &key) {
+                        removed += 1;
+                    }
+                }
+            }
+        }
+        removed
+    }
+
+    /// Lazy expiry before a command runs.  Every argument is treated as a possible key name
+    /// (removing a key that is past its deadline is right whichever argument named it), and
+    /// the commands that look at the key space as a whole expire everything that is due.
+    /// With this, a key is absent to every command from its deadline on.
+    pub fn expire_before_command<'a, I>(&self, db: DatabaseIndex, command: &str, args: I)
+    where
+        I: IntoIterator<Item = &'a [u8]>,
+    {
+        for arg in args {
+            self.expire_if_due(db, arg);
+        }
+        match command {
+            "DBSIZE" | "KEYS" | "SCAN" | "RANDOMKEY" | "INFO" => {
+                self.expire_due_keys(db);
+            }
+            "SAVE" | "BGSAVE" | "BGREWRITEAOF" | "SYNC" | "PSYNC" => {
+                for db in 0..self.databases.len() {
+                    self.expire_due_keys(db);
+                }
+            }
+            _ => {}
+        }
+    }
+
     /// Background thread for cleaning up expired keys in sharded structure
     fn expiration_cleanup_loop(engine: Arc<StorageEngine>) {
         loop {
